@@ -441,3 +441,63 @@ def solve_ground(ob, timeout_ms=10000):
             return "unknown", None, note + "; SOLVER DISAGREEMENT on the ground problem (z3 4.8.12 says sat)"
         note += "; confirmed by z3 4.8.12" if c == "unsat" else "; (single)"
     return str(r), (s.model() if r == z3.sat else None), note
+
+
+# --------------------------------------------------------------------------- problem fingerprints (DESIGN 0.4)
+
+
+def fingerprint(ob):
+    """Structural hash of an obligation (axioms, hypotheses in order, goal): identical for alpha-equivalent problems
+    (generated names `x!17` are numbered by first occurrence), independent of let-sharing and AST ids."""
+    import hashlib
+    import re
+
+    names, memo = {}, {}
+
+    def cname(n):
+        m = re.match(r"^(.*)!(\d+)$", n)
+        if not m:
+            return n
+        if n not in names:
+            names[n] = f"{m.group(1)}!{len(names)}"
+        return names[n]
+
+    def h(e):
+        k = e.get_id()
+        if k in memo:
+            return memo[k]
+        if z3.is_quantifier(e):
+            parts = ["Q", "A" if e.is_forall() else ("E" if e.is_exists() else "L"), str(e.num_vars())]
+            parts += [e.var_sort(i).sexpr() for i in range(e.num_vars())]
+            parts.append(h(e.body()))
+            for i in range(e.num_patterns()):
+                parts.append("P" + h(e.pattern(i)))
+        elif z3.is_var(e):
+            parts = ["V", str(z3.get_var_index(e)), e.sort().sexpr()]
+        elif z3.is_app(e):
+            d = e.decl()
+            if e.num_args() == 0 and d.kind() != z3.Z3_OP_UNINTERPRETED:
+                parts = ["C", e.sexpr()]  # literal
+            else:
+                parts = ["F", cname(d.name()), e.sort().sexpr(), str(d.kind())]
+                try:
+                    parts += [str(p) for p in d.params()]
+                except Exception:  # noqa: BLE001
+                    pass
+                ch = [h(c) for c in e.children()]
+                if d.kind() in (z3.Z3_OP_AND, z3.Z3_OP_OR, z3.Z3_OP_ADD, z3.Z3_OP_MUL, z3.Z3_OP_EQ, z3.Z3_OP_DISTINCT, z3.Z3_OP_IFF):
+                    ch.sort()  # simplification orders the arguments of commutative operators by AST id
+                parts += ch
+        else:
+            parts = ["O", e.sexpr()]
+        r = hashlib.sha1("\x1f".join(parts).encode()).hexdigest()
+        memo[k] = r
+        return r
+
+    acc = hashlib.sha1()
+    for a in list(getattr(ob, "axioms", [])) + list(ob.hyps):
+        acc.update(h(a).encode())
+    acc.update(b"|-")
+    acc.update(h(ob.goal).encode())
+    acc.update(ob.expect.encode())
+    return acc.hexdigest()
